@@ -71,22 +71,28 @@ namespace {
 
     // raw walk of the /Pages tree without calling anything that fills or repairs the page cache.
     // prints <count>:<leaf>,<leaf>... ; leaf = id^parent-it-names^node-that-lists-it^marker
-    void walk(QPDFObjectHandle node, int depth, std::set<int>& seen, std::string& out) {
+    // leaf = id^parent-it-names^node-that-lists-it^marker^effective /Rotate at THIS position (own value, else inherited
+    // from the nodes the walk came through)
+    void walk(QPDFObjectHandle node, int depth, std::set<int>& seen, std::string& out, std::string rot) {
         if (depth > 40 || !node.isDictionary()) { out += "x,"; return; }
         if (node.isIndirect() && !seen.insert(node.getObjectID()).second) { out += "loop,"; return; }
+        auto nr = node.getKey("/Rotate");
+        if (nr.isInteger()) rot = std::to_string(nr.getIntValue());
         auto kids = node.getKey("/Kids");
         if (!kids.isArray()) { out += "nokids,"; return; }
         int n = kids.getArrayNItems();
         for (int i = 0; i < n; ++i) {
             auto kid = kids.getArrayItem(i);
-            if (kid.isDictionary() && kid.hasKey("/Kids")) { walk(kid, depth + 1, seen, out); continue; }
+            if (kid.isDictionary() && kid.hasKey("/Kids")) { walk(kid, depth + 1, seen, out, rot); continue; }
             if (!kid.isDictionary()) { out += (kid.isIndirect() ? std::to_string(kid.getObjectID()) : std::string("d")) + "^x,"; continue; }
             auto par = kid.getKey("/Parent");
             auto mk = kid.getKey("/Mk");
+            auto kr = kid.getKey("/Rotate");
             out += (kid.isIndirect() ? std::to_string(kid.getObjectID()) : std::string("d")) + "^" +
                 (par.isIndirect() ? std::to_string(par.getObjectID()) : std::string("-")) + "^" +
                 (node.isIndirect() ? std::to_string(node.getObjectID()) : std::string("-")) + "^" +
-                (mk.isInteger() ? std::to_string(mk.getIntValue()) : std::string("?")) + ",";
+                (mk.isInteger() ? std::to_string(mk.getIntValue()) : std::string("?")) + "^" +
+                (kr.isInteger() ? std::to_string(kr.getIntValue()) : rot) + ",";
         }
     }
     std::string tree(QPDF& q) {
@@ -98,7 +104,7 @@ namespace {
             out += (pages.isIndirect() ? std::to_string(pages.getObjectID()) : std::string("-")) + ":" +
                 (cnt.isInteger() ? std::to_string(cnt.getIntValue()) : std::string("?")) + ":";
             std::set<int> seen;
-            walk(pages, 0, seen, out);
+            walk(pages, 0, seen, out, "0");
         } catch (std::exception const& e) { out += std::string("!") + e.what(); }
         return out;
     }
@@ -119,6 +125,8 @@ namespace {
                     (isP ? "P" : (isC ? "C" : "n")) + ",";
             } else if (oh.isNull()) {
                 out += std::to_string(i) + "^?^z,";      // a null object: Pages::insert lets it through
+            } else if (oh.isStream()) {
+                out += std::to_string(i) + "^?^s,";      // a stream: the one kind of indirect handle replaceObject may admit
             }
         }
         return out;
@@ -185,6 +193,12 @@ namespace {
             if (lv.empty()) return "3";
             return std::to_string(lv[static_cast<size_t>(k) % lv.size()]);
         }
+        if (tok[1] == 's') {   // k-th (mod n) stream object
+            std::vector<int> st;
+            for (int i = 1; i <= count; ++i) { if (q.getObject(i, 0).isStream()) st.push_back(i); }
+            if (st.empty()) return "3";
+            return std::to_string(st[static_cast<size_t>(k) % st.size()]);
+        }
         if (tok[1] == 'o') return std::to_string(count > 0 ? (k % count) + 1 : 1);
         if (tok[1] == 'n') { int v = count - (k % 4); return std::to_string(v >= 1 ? v : 1); }
         return tok;
@@ -196,7 +210,8 @@ namespace {
         auto fix = [&](size_t docf, size_t idf) { if (f.size() > idf && f.size() > docf) f[idf] = resolve(D, std::stoi(f[docf]), f[idf]); };
         if (op == "ap" || op == "hp" || op == "rm" || op == "hr" || op == "cf") fix(2, 3);
         else if (op == "aa" || op == "ha") { fix(2, 3); fix(5, 6); }
-        else if (op == "sc" || op == "fp" || op == "rp") fix(1, 2);
+        else if (op == "sc" || op == "fp" || op == "rp" || op == "rr") fix(1, 2);
+        else if (op == "ri") { fix(1, 2); fix(3, 4); }
         else if (op == "sw") { fix(1, 2); fix(1, 3); }
         return f;
     }
@@ -228,6 +243,16 @@ namespace {
             return r.isIndirect() ? "ok:" + std::to_string(r.getObjectID()) : "ok:direct-" + std::string(r.getTypeName());
         }
         if (op == "rp") { q.replaceObject(I(2), 0, QPDFObjectHandle::parse(&q, unhex(f.at(3)))); return "ok"; }
+        if (op == "ri") {   // replaceObject with an INDIRECT handle (object j of document sd): invalid unless documented otherwise
+            q.replaceObject(I(2), 0, handle(D, I(3), I(4))); return "ok";
+        }
+        if (op == "rr") {   // replaceObject with a reserved object; the reservation is turned into a null afterwards
+            auto res = q.newReserved();
+            try { q.replaceObject(I(2), 0, res); }
+            catch (...) { q.replaceReserved(res, QPDFObjectHandle::newNull()); throw; }
+            q.replaceReserved(res, QPDFObjectHandle::newNull());
+            return "ok";
+        }
         if (op == "sw") { q.swapObjects(I(2), 0, I(3), 0); return "ok"; }
         if (op == "uc") { q.updateAllPagesCache(); return "ok"; }
         if (op == "pi") { q.pushInheritedAttributesToPage(); return "ok"; }
